@@ -1530,14 +1530,11 @@ where
 }
 
 fn inject_define_component_option(call: &mut CallExpr, name: &'static str, value: Expr) {
-    let options = call.args.get_mut(1);
-    if options
-        .as_ref()
-        .and_then(|options| options.spread)
-        .is_some()
-    {
+    // a spread argument list is left alone: the options may come from any part of it
+    if call.args.iter().any(|arg| arg.spread.is_some()) {
         return;
     }
+    let options = call.args.get_mut(1);
 
     match options.map(|options| &mut *options.expr) {
         Some(Expr::Object(object)) => {
